@@ -338,13 +338,43 @@ def c17(case):
             objs = [made[j] for j in range(len(elems))]
             lst = pytrs.TractList(objs)
         ids = {id(o): j + 1 for j, o in enumerate(objs)}
+        route = a.get("route", "method")
+        key = a["key"]
+        if route == "keylist":
+            # "a list of sort keys, to be applied left-to-right"
+            key = [k_ for k_ in key.split(",")]
+            if a.get("keytuple"):
+                key = tuple(key)
+        target = lst
         if container == "PLSSDesc":
-            d = pytrs.PLSSDesc("T1N-R1W Sec 1: NE/4")
-            d.tracts = lst
-            d.sort_tracts(a["key"])
-            after = list(d.tracts)
+            target = pytrs.PLSSDesc("T1N-R1W Sec 1: NE/4")
+            target.tracts = lst
+        if route in ("unpack", "grouped"):
+            # sorting inside / after grouping: group_by(..., sort_key=), sort_grouped(), unpack_group(..., sort_key=)
+            attr = a.get("group_attr", "twprge")
+            cls = pytrs.TRSList if container == "TRSList" else pytrs.TractList
+            g0 = target.group_by(attr)
+            if route == "unpack":
+                pre = cls.unpack_group(g0)
+                after = cls.unpack_group(g0, sort_key=key)
+                return {"exc": "none", "pre": [ids.get(id(o), 0) for o in pre], "out": [ids.get(id(o), 0) for o in after],
+                        "groups_untouched": [ids.get(id(o), 0) for o in cls.unpack_group(g0)] == [ids.get(id(o), 0) for o in pre]}
+            if a.get("grouped_how") == "sort_grouped":
+                g1 = cls.sort_grouped(target.group_by(attr), key)
+            else:
+                g1 = target.group_by(attr, sort_key=key)
+            if list(g1.keys()) != list(g0.keys()):
+                return {"exc": "none", "groups": [], "note": "group keys differ"}
+            return {"exc": "none", "groups": [{"pre": [ids.get(id(o), 0) for o in g0[k_]], "out": [ids.get(id(o), 0) for o in g1[k_]]}
+                                              for k_ in g0]}
+        if container == "PLSSDesc":
+            target.sort_tracts(key)
+            after = list(target.tracts)
+        elif route == "sort_method" and key == "i,s,r,t":
+            lst.sort()                      # list-style sort(): the documented default key
+            after = list(lst)
         else:
-            lst.custom_sort(a["key"])
+            lst.custom_sort(key)
             after = list(lst)
         return {"exc": "none", "out": [ids.get(id(o), 0) for o in after]}
     except Exception as e:  # noqa
